@@ -233,11 +233,9 @@ func renderYAML(v any) []byte {
 			}
 			return &yaml3.Node{Kind: yaml3.ScalarNode, Tag: "!!bool", Value: val}
 		case jnum:
-			tag := "!!int"
-			if t.s != 0 {
-				tag = "!!float"
-			}
-			return &yaml3.Node{Kind: yaml3.ScalarNode, Tag: tag, Value: numText(t)}
+			// no explicit tag: the encoder resolves the literal itself (integers beyond 64 bits
+			// resolve to floats and must not be written with an explicit !!int tag)
+			return &yaml3.Node{Kind: yaml3.ScalarNode, Value: numText(t)}
 		case jstr:
 			n := &yaml3.Node{}
 			n.SetString(string(t))
